@@ -7,13 +7,14 @@
 (*   OrdInv     heap order (max-heap resp. min-max heap)                    *)
 (*   Refines    every transition satisfies the abstract judgement           *)
 (*              (Abstract!Judge: the predicate that also judges the code)   *)
+(*              and stays within the comparison bound of Cost.tla (C05)     *)
 (*   NoBadOut   no operator reports a failed checked ("panic") or           *)
 (*              unchecked ("ub") access from a reachable state              *)
 (* It also EMITS, for every distinct state, one history that reaches it     *)
 (* (a REPLAY line) - the covering set replayed into the real code.          *)
 (* VIEW drops the item names: an exact symmetry reduction at no cost.       *)
 (***************************************************************************)
-EXTENDS Ops, Json
+EXTENDS Ops, Json, Cost
 
 CONSTANTS Items,      \* set of keys (strings)
           MaxP,       \* priorities are 0..MaxP
@@ -71,11 +72,15 @@ Init == st = Empty /\ hist = <<>> /\ bad = {}
 Refine(op, r) == LET j == Judge(AbsOf(st), EventOf(Kind, st, op, r)) IN
                  j.f \cup (IF r.out = "ok" /\ AbsOf(r.st) # j.n THEN {"contents"} ELSE {})
 
+\* comparisons used by the modelled algorithm versus the bound of Cost.tla (C05)
+CostFails(op, r) == LET n == IF r.st.size > st.size THEN r.st.size ELSE st.size IN
+                    IF Within(Kind, op.op, n, INF - r.fuel.cmp) THEN {} ELSE {"cost"}
+
 Step(op) == LET r == Apply(Kind, st, op, Inf) IN
             /\ st' = r.st
             /\ hist' = Append(hist, op)
             /\ bad' = (IF r.out # "ok" THEN {<<op.op, r.out>>} ELSE {})
-                      \cup {<<op.op, t>> : t \in Refine(op, r)}
+                      \cup {<<op.op, t>> : t \in Refine(op, r) \cup CostFails(op, r)}
 
 \* judgement of a creation: the same predicates the trace specification applies (StepCreate)
 CreateFails(op, r) ==
